@@ -14,7 +14,7 @@ import (
 func init() {
 	register("C12",
 		"that the start offset is measured from the right Jie instant and converted without rounding loss (numeric); that ages/years line up with the birth year beyond the affine relations checked here (AX-AGE).",
-		r12_1, r12_2, r12_3, r12_4, r12_5, r12_6, r12_7, r03_3)
+		r12_1, r12_2, r12_3, r12_4, r12_5, r12_6, r12_7, r03_3, r07_5)
 }
 
 // evalBoolOnPath evaluates a boolean SSA value along a path given truth values for atoms.
@@ -169,16 +169,16 @@ func r12_1(c *Ctx, r *Report) {
 
 func r12_2(c *Ctx, r *Report) {
 	const rule = "R12.2"
-	r.rule(rule, "Conversion constants and ranges. School 2: 4320 = 3*1440 minutes per year, 360 = 4320/12 per month, 12 = 360/30 per day, 2 hours per minute; school 1: 4 months per day, 10 days per two-hour slot, 30 days per month, 12 months per year. At the stores startMonth is in [0,11], startDay in [0,29], startHour in [0,23] (interval analysis with the idiom x - (x/c)*c, under AX-DATEDIFF).")
+	r.rule(rule, "Conversion of the distance to the Jie into the start offset, as decision tables (computeStart followed by the evaluator, helpers inline, the stored fields read from its field memory). School 2: for M minutes between the two moments (every M up to 9000 and a spread beyond), years = M/4320, months = (M%4320)/360, days = (M%360)/12, hours = (M%12)*2 — three days per year at minute resolution. School 1: with D the day difference and the two-hour slots of both moments (0..11; 23:xx counted as slot 11 at both ends), the slot difference borrows a day when negative, a day is four months, a slot ten days: months = 4D + slots*10/30, days = slots*10 - 30*(slots*10/30), years = months/12, months %= 12, hours = 0 — for both directions, all 24 x 24 hour pairs and a spread of D. The start and end are the previous Jie and the birth moment (backward) or the birth moment and the next Jie (forward). At the stores startMonth is in [0,11], startDay in [0,29], startHour in [0,23] (interval analysis, under AX-DATEDIFF).")
 	fn := c.Fn(r, rule, "calendar.(*Yun).computeStart")
 	if fn == nil {
 		return
 	}
-	u := intConstUses(fn)
-	okk := countConst(u, token.QUO, 4320) == 1 && countConst(u, token.MUL, 4320) == 1 && countConst(u, token.QUO, 360) == 1 && countConst(u, token.MUL, 360) == 1 &&
-		countConst(u, token.QUO, 12) == 2 && countConst(u, token.MUL, 12) == 2 && countConst(u, token.MUL, 2) == 1 &&
-		countConst(u, token.MUL, 4) == 1 && countConst(u, token.MUL, 10) == 2 && countConst(u, token.QUO, 30) == 1 && countConst(u, token.MUL, 30) == 1
-	r.check(okk && 4320 == 3*1440 && 360 == 4320/12 && 12 == 360/30, rule, "calendar.(*Yun).computeStart conversion constants", c.fnPos(fn), fmt.Sprintf("constants %v", u))
+	if len(fn.Params) == 2 {
+		r12_2_tables(c, r, rule, fn)
+	} else {
+		r.bad(rule, "calendar.(*Yun).computeStart conversion", c.fnPos(fn), "unexpected signature (undecided = fail)")
+	}
 	e := c.ranges()
 	for _, f := range []struct {
 		key    string
@@ -579,4 +579,209 @@ func r12_7(c *Ctx, r *Report) {
 		}
 	}
 	r.check(n == 1, rule, "calendar.(*Yun).computeStart has one slot difference", c.fnPos(fn), fmt.Sprintf("%d subtractions of two slot indices found", n))
+}
+
+
+func r12_2_tables(c *Ctx, r *Report, rule string, fn *ssa.Function) {
+	recv := ssa.Value(fn.Params[0])
+	idx := map[string]int{}
+	for _, f := range []string{"startYear", "startMonth", "startDay", "startHour"} {
+		idx[f] = fieldIndexOf(recv, f)
+		if idx[f] < 0 {
+			r.bad(rule, "calendar.(*Yun).computeStart conversion", c.fnPos(fn), "field "+f+" not found (undecided = fail)")
+			return
+		}
+	}
+	type scenario struct {
+		sect, minutes, days int64
+		forward             bool
+		hEnd, hStart        int64
+	}
+	problems := map[string]bool{}
+	run := func(sc scenario) (got [4]interface{}, note string) {
+		var leaf leafX
+		tagOf := func(fr *evalFrame, v ssa.Value) (string, bool) {
+			o, ok := evalWith(fr, v, leaf)
+			p, isP := o.(absPtr)
+			return p.tag, ok && isP
+		}
+		hourOf := func(tag string) int64 {
+			// the birth moment is the start when forward, the end otherwise
+			switch {
+			case tag == "next", tag == "current" && !sc.forward:
+				return sc.hEnd
+			default:
+				return sc.hStart
+			}
+		}
+		leaf = func(fr *evalFrame, v ssa.Value) (interface{}, bool) {
+			if p, ok := v.(*ssa.Parameter); ok && fr.parent == nil && p == fn.Params[1] {
+				return sc.sect, true
+			}
+			if rc, f, ok := getterField(c, v); ok {
+				if ofr, o := fr.origin(rc); ofr.parent == nil && o == recv && f == "Yun.forward" {
+					return sc.forward, true
+				}
+				if f == "Solar.hour" {
+					if t, ok := tagOf(fr, rc); ok {
+						return hourOf(t), true
+					}
+				}
+				if f == "JieQi.solar" {
+					if t, ok := tagOf(fr, rc); ok && (t == "prevJie" || t == "nextJie") {
+						return absPtr{strings.TrimSuffix(t, "Jie"), false}, true
+					}
+				}
+				if f == "Lunar.solar" {
+					return absPtr{"current", false}, true
+				}
+			}
+			call, ok := v.(*ssa.Call)
+			if !ok || call.Common().StaticCallee() == nil {
+				return nil, false
+			}
+			callee := call.Common().StaticCallee()
+			args := call.Common().Args
+			switch {
+			case recvIsNamed(callee, "Lunar") && callee.Name() == "GetPrevJie":
+				return absPtr{"prevJie", false}, true
+			case recvIsNamed(callee, "Lunar") && callee.Name() == "GetNextJie":
+				return absPtr{"nextJie", false}, true
+			case recvIsNamed(callee, "Lunar") && (callee.Name() == "GetPrevJieByWholeDay" || callee.Name() == "GetNextJieByWholeDay"):
+				if w, ok := evalWith(fr, args[1], leaf); ok && w == interface{}(false) {
+					return absPtr{strings.ToLower(callee.Name()[3:7]) + "Jie", false}, true
+				}
+				problems["the Jie is taken by whole days"] = true
+				return nil, false
+			case recvIsNamed(callee, "Solar") && len(args) == 2 && (callee.Name() == "SubtractMinute" || callee.Name() == "Subtract"):
+				a, ok1 := tagOf(fr, args[0])
+				b, ok2 := tagOf(fr, args[1])
+				wantA, wantB := "next", "current"
+				if !sc.forward {
+					wantA, wantB = "current", "prev"
+				}
+				if !ok1 || !ok2 || a != wantA || b != wantB {
+					problems[fmt.Sprintf("the distance is taken from %s to %s (forward=%v)", b, a, sc.forward)] = true
+					return nil, false
+				}
+				if callee.Name() == "SubtractMinute" {
+					return sc.minutes, true
+				}
+				return sc.days, true
+			case recvIsNamed(callee, "Solar") && len(args) == 1 && callee.Name() == "ToYmdHms":
+				if t, ok := tagOf(fr, args[0]); ok {
+					return fmt.Sprintf("2022-03-09 %02d:30:00", hourOf(t)), true
+				}
+			case callee.Name() == "GetTimeZhiIndex" && len(args) == 1:
+				if o, ok := evalWith(fr, args[0], leaf); ok {
+					if str, isS := o.(string); isS && len(str) >= 5 && str[2] == ':' {
+						var h int64
+						fmt.Sscanf(str[:2], "%d", &h)
+						if h == 23 || h == 0 {
+							return int64(0), true
+						}
+						return (h + 1) / 2, true
+					}
+				}
+				return nil, false
+			}
+			return nil, false
+		}
+		ev := &evaluator{leaf: leaf, inline: inlineLibrary}
+		fr := &evalFrame{fn: fn, phiFrom: map[*ssa.BasicBlock]*ssa.BasicBlock{}}
+		_, outcome := ev.runFrame(fr, nil, nil)
+		if outcome != "return" {
+			return got, outcome + " " + ev.fail
+		}
+		for i, f := range []string{"startYear", "startMonth", "startDay", "startHour"} {
+			got[i] = fr.mem[memKey{recv, idx[f]}]
+		}
+		return got, ""
+	}
+	cmp := func(got [4]interface{}, want [4]int64) bool {
+		for i := range want {
+			if got[i] != interface{}(want[i]) {
+				return false
+			}
+		}
+		return true
+	}
+	// school 2
+	{
+		var bad []string
+		n := 0
+		ms := []int64{}
+		for m := int64(0); m <= 9000; m++ {
+			ms = append(ms, m)
+		}
+		ms = append(ms, 43199, 43200, 43201, 51839, 51840, 100000)
+		for _, fw := range []bool{true, false} {
+			for _, m := range ms {
+				if len(bad) >= 4 || len(problems) > 0 || (!fw && m > 800 && m < 8000) {
+					continue
+				}
+				got, note := run(scenario{sect: 2, minutes: m, forward: fw, hEnd: 10, hStart: 9})
+				n++
+				want := [4]int64{m / 4320, m % 4320 / 360, m % 360 / 12, m % 12 * 2}
+				if note != "" {
+					bad = append(bad, note)
+				} else if !cmp(got, want) {
+					bad = append(bad, fmt.Sprintf("%d minutes (forward=%v): %v years/months/days/hours, stated %v", m, fw, got, want))
+				}
+			}
+		}
+		for p := range problems {
+			bad = append(bad, p)
+		}
+		sort.Strings(bad)
+		r.check(len(bad) == 0 && n > 0, rule, "calendar.(*Yun).computeStart, school 2: three days per year at minute resolution", c.fnPos(fn), fmt.Sprintf("%d assignments; deviations: %v", n, headList(dedupe(bad), 3)))
+	}
+	// school 1
+	{
+		for k := range problems {
+			delete(problems, k)
+		}
+		var bad []string
+		n := 0
+		slot := func(h int64) int64 {
+			if h == 23 {
+				return 11
+			}
+			if h == 0 {
+				return 0
+			}
+			return (h + 1) / 2
+		}
+		for _, fw := range []bool{true, false} {
+			for he := int64(0); he < 24; he++ {
+				for hs := int64(0); hs < 24; hs++ {
+					for _, d := range []int64{0, 1, 2, 3, 14, 29, 30, 31} {
+						if len(bad) >= 4 || len(problems) > 0 {
+							continue
+						}
+						got, note := run(scenario{sect: 1, days: d, forward: fw, hEnd: he, hStart: hs})
+						n++
+						hd, dd := slot(he)-slot(hs), d
+						if hd < 0 {
+							hd += 12
+							dd--
+						}
+						md := hd * 10 / 30
+						month := dd*4 + md
+						want := [4]int64{month / 12, month - month/12*12, hd*10 - md*30, 0}
+						if note != "" {
+							bad = append(bad, note)
+						} else if !cmp(got, want) {
+							bad = append(bad, fmt.Sprintf("%d days, end hour %d, start hour %d (forward=%v): %v years/months/days/hours, stated %v", d, he, hs, fw, got, want))
+						}
+					}
+				}
+			}
+		}
+		for p := range problems {
+			bad = append(bad, p)
+		}
+		sort.Strings(bad)
+		r.check(len(bad) == 0 && n > 0, rule, "calendar.(*Yun).computeStart, school 1: a day is four months, a two-hour slot ten days", c.fnPos(fn), fmt.Sprintf("%d assignments; deviations: %v", n, headList(dedupe(bad), 3)))
+	}
 }
